@@ -132,6 +132,16 @@ Example C02_start_clause_needs_no_user_end :
      end.
 Proof. split; [vm_compute; reflexivity|]. split; [repeat split|]. vm_compute. repeat split. Qed.
 
+(* ---- source-text tie for the recursive pass (gen/SrcPass.v: ForwardScheduler.__forward_pass / BackwardScheduler.__backward_pass translated from schedule.py on every run;
+   Sched/SrcPassEquivF.v / SrcPassEquivB.v relates it to the model's pass for every input, Sched/SrcPassProps.v transports the theorems):
+   what follows is about the TRANSLATED SOURCE called once per root as calc does ([src_roots_fold]) after calc's pre-checks. ---- *)
+From PJ Require Import gen.SrcPass Sched.SrcPassRel Sched.SrcPassEquivF Sched.SrcPassEquivB Sched.SrcPassProps.
+
+Theorem C02_src_forward_pass : forall cfg w ds l cl, isolated_ok w = true -> no_future_ends w (now cfg) = true ->
+  src_roots_fold src_fwd_pass cfg w (roots w) = Ok (ds, l, cl) ->
+  cap_nonneg cfg -> WFin w -> ext_last w -> c02_b cfg w (obs_of w (src_sst (ds, l, cl))) = true.
+Proof. exact src_fwd_c02_oracle. Qed.
+
 Print Assumptions C02_leaf.
 Print Assumptions C02_milestone.
 Print Assumptions C02_prereqs_meaning.
@@ -143,3 +153,4 @@ Print Assumptions C02_forward_passes_oracle.
 Print Assumptions C02_fixed_end_conflict.
 Print Assumptions C02_example.
 Print Assumptions C02_start_clause_needs_no_user_end.
+Print Assumptions C02_src_forward_pass.
